@@ -65,6 +65,7 @@ def loop_step(ctx):
     ex.invariants += [OUT >= 0, OUT <= 2, z3.Or([EFF == i for i in EFFT.values()])]
     outs = ex.run(f, None, start=head, stop=(head,))
     ctx.absorb(ex)
+    ctx.panic_summary(f.name.split('::')[-1] + '@' + (f.file or '').split('/')[-1], outs, ex)
     dbg = {v: k for k, v in f.debug.items()}
     permit = EFF == EFFT['Permit']
     exp_bucket = z3.If(OUT == 0, z3.If(SAT, z3.If(permit, 0, 1), z3.If(permit, 2, 3)), z3.If(OUT == 1, z3.If(permit, 4, 5), z3.If(permit, 2, 3)))
@@ -156,6 +157,7 @@ def loop_prefix(ctx):
     args = ex.args_havoc(f)
     outs = ex.run(f, args, stop=(head,))
     ctx.absorb(ex)
+    ctx.panic_summary(f.name.split('::')[-1] + '@' + (f.file or '').split('/')[-1], outs, ex)
     dbg = f.debug
     good = len(outs) >= 1
     for o in outs:
@@ -187,6 +189,7 @@ def pr_new(ctx):
     args = [Opaque(ty, dbg.get(n, n)) for n, ty in f.args]
     outs = ex.run(f, args)
     ctx.absorb(ex)
+    ctx.panic_summary(f.name.split('::')[-1] + '@' + (f.file or '').split('/')[-1], outs, ex)
     rets = [o for o in outs if o.kind == 'ret']
     for o in outs:
         if o.kind != 'ret':
@@ -270,6 +273,7 @@ def response_from(ctx):
     ex.stub(r'as Clone>::clone$', lambda ex, st, c, A: None, 'clone')
     outs = ex.run(f, [pr])
     ctx.absorb(ex)
+    ctx.panic_summary(f.name.split('::')[-1] + '@' + (f.file or '').split('/')[-1], outs, ex)
     ids = {}
     D = iteralg.Denoter(ex, lambda v: by_id.get(getattr(v, 'id', None)), bucket_elem(ids))
     e_sp, e_sf = empty['satisfied_permits'], empty['satisfied_forbids']
@@ -369,6 +373,7 @@ def policy_evaluation(ctx):
             args, heap = [Ref(0, ('local', 'EV')), Ref(0, ('local', 'P'))], {'EV': ev, 'P': pol}
         outs = ex.run(f, args, heap=heap)
         ctx.absorb(ex)
+        ctx.panic_summary(f.name.split('::')[-1] + '@' + (f.file or '').split('/')[-1], outs, ex)
         is_bool = val.code == 0
         for i, o in enumerate(outs):
             name = f'Evaluator::{meth}/path{i}'
@@ -436,6 +441,7 @@ def entry_wiring(ctx):
     q, pset, ents = Opaque('ast::request::Request', 'q'), Opaque('ast::policy_set::PolicySet', 'pset'), Opaque('entities::Entities', 'entities')
     outs = ex.run(f, [Ref(0, ('local', 'A')), q, Ref(0, ('local', 'PS')), Ref(0, ('local', 'ES'))], heap={'A': auth, 'PS': pset, 'ES': ents})
     ctx.absorb(ex)
+    ctx.panic_summary(f.name.split('::')[-1] + '@' + (f.file or '').split('/')[-1], outs, ex)
     good = len(outs) == 1 and outs[0].kind == 'ret'
     detail = ''
     if good:
@@ -454,9 +460,13 @@ def entry_wiring(ctx):
                on_sat=lambda m: replay_policies(ctx, 'Authorizer::is_authorized', 'authorizer.rs: is_authorized / is_authorized_core wiring', [('permit', 'true'), ('forbid', 'error')], 'entry point wiring'))
 
 
+def families(ctx):
+    return [(fn.__name__, (lambda fn=fn: fn(ctx))) for fn in (entry_wiring, policy_evaluation, loop_prefix, loop_step, pr_new, response_from)]
+
+
 def run(ctx):
-    for fn in (entry_wiring, policy_evaluation, loop_prefix, loop_step, pr_new, response_from):
-        ctx.guarded(fn.__name__, lambda fn=fn: fn(ctx))
+    for name, fn in families(ctx):
+        ctx.guarded(name, fn)
     ctx.bounds += ['loop step: one iteration from an arbitrary (havocked) state => every loop length; decision tables: all 2^6 bucket-emptiness states',
                    'replay concretises outcomes as static policies: true/false literal, integer overflow (error), unknown("u") (residual)']
     ctx.assumptions += ['Evaluator::partial_evaluate, Policy::{id,effect,annotations_arc}, Iterator::next over the policy set: environment stubs returning arbitrary values',
